@@ -622,7 +622,8 @@ class ExprMixin(object):
             raise EngineError('attribute of closure')
         h = base.hint
         if h is not None and h.kind == 'opaque':
-            return Bound(base, None, name)
+            uf = self.get_uf('opaque_attr_' + name, Val, Val)
+            return V(uf(base.t), parse_spec('opaque'))
         if h is not None and h.kind in ('str', 'list', 'dict', 'set', 'tuple'):
             if h.opt:
                 self.raise_exit(st, AttributeError, Val.is_N(base.t), line)
